@@ -98,8 +98,10 @@ def gen_nice(rng, attrs, earlier=None):
 
 def gen_source(rng):
     r = rng.random()
-    if r < 0.05:
+    if r < 0.06:
         return {"kind": "empty"}
+    if r < 0.10:
+        return {"kind": "desc_unparsed", "text": corpus.gen_desc(rng)}
     if r < 0.7:
         return {"kind": "desc", "text": corpus.gen_desc(rng),
                 "config": opgen.gen_config_text(
@@ -181,6 +183,11 @@ def gen_plan(rng):
                     next_w += 1
                 elif not open_w:
                     kinds = [x for x in kinds if x != "tw"] or ["csv"]
+            continue
+        if k == "records" and rng.random() < 0.25:
+            free = [p for p in PATHS if p not in open_w.values()]
+            if free:
+                ops.append({"op": "rm", "path": rng.choice(free)})
             continue
         if k == "records":
             ops.append({"op": "records", "src": rng.randrange(n_src),
@@ -308,6 +315,8 @@ def build_sources(pytrs, specs):
         try:
             if s["kind"] == "empty":
                 out.append(pytrs.TractList())
+            elif s["kind"] == "desc_unparsed":
+                out.append(pytrs.PLSSDesc(s["text"], wait_to_parse=True))
             elif s["kind"] == "desc":
                 d = pytrs.PLSSDesc(s["text"], config=s["config"],
                                    parse_qq=s["parse_qq"], source=s["source"])
@@ -510,6 +519,15 @@ class Runner:
             w["obj"].open()
             w["open"] = True
             self.bump("reopen_after_close")
+            return {"ok": None}
+        if kind == "rm":
+            path = op["path"]
+            if path in self.dirty:
+                return {"skipped": "path has an open writer"}
+            if path in fs.files:
+                del fs.files[path]          # the user's doing, not an I/O call
+                self.bump("file_deleted_by_user")
+            self.model.pop(path, None)
             return {"ok": None}
         if kind == "records":
             src = self.srcs[op["src"] % len(self.srcs)]
@@ -732,9 +750,12 @@ def run_workload(plan, srcs, fault=None, interrupt=None, twin=None,
         if now.get(fpath) == before.get(fpath):
             pass        # the failed op left the file exactly as it was
         elif opens_here and not opened:
-            # the fault came before this op's open took effect: nothing may
-            # have happened to the file at all
-            if now.get(fpath) != before.get(fpath):
+            # the target itself was never opened by this op before the
+            # fault: either nothing happened to it at all, or it was replaced
+            # atomically by the complete fault-free content (a writer that
+            # renames a finished temporary file into place and is
+            # interrupted afterwards)
+            if now.get(fpath) != twin_after.get(fpath):
                 problems.append({
                     "oracle": "file_changed_before_open", "path": kindf,
                     "detail": {"op_index": k, "op": op, "fault": fault}})
